@@ -1,6 +1,6 @@
 """C16 — JSONL log streams stay well-formed, ordered and lossless.
 
-Seven legs, each an exhaustive enumeration of a stated bounded space on the real code:
+Nine legs, each an exhaustive enumeration of a stated bounded space on the real code:
 
 (1) append   E3c  appender atomicity.  ``clematis.io.log.open`` is shadowed by a *virtual append device*: the real
              ``io.BufferedWriter`` (or the raw layer itself for ``buffering=0``) on top of a raw layer that records
@@ -31,6 +31,17 @@ Seven legs, each an exhaustive enumeration of a stated bounded space on the real
              directory) under the baton scheduler of ``mc.sched``: every schedule with <= bound preemptions, a switch
              being possible before every source line of ``clematis/io/atomic.py``.  Oracle: no call fails, each target
              is exactly one writer's complete record list (a reader thread, thorough tier, never sees anything else).
+(1b) append-threads E3b 2-3 appender THREADS of one process (same / different streams, both entry points) on real files
+             under the baton scheduler, a switch being possible before every source line of ``clematis/io/log.py``: whatever
+             the appender shares between calls (handles, buffers, caches) is exposed to every schedule with <= bound
+             preemptions.  Oracle as in (1), per stream.
+(8) lifecycle E1  one process, one log directory: every history over {append to X (two entry points), append to a second
+             stream, compaction of X, rotation of the directory} — the maintenance operations of legs (4)/(5) interleaved
+             with the appends of leg (1) on the SAME files.  Oracle: after every step the directory equals the reference
+             model (live record list + generations .1..N per stream): appends that follow a compaction / rotation land in
+             the live file of the stream, generations are not touched by later appends.
+Leg (4) also varies HOW the records are handed to ``rewrite_jsonl`` (``Iterable[dict]``: list, tuple, dict view, one-shot
+iterator, generator, generator streaming the file being compacted).
 """
 from __future__ import annotations
 
@@ -75,6 +86,19 @@ def _viol(st, sig, what, case):
         return
     best[sig] = n
     st.violation(sig, what, case)
+
+
+_FRESH = [0]
+
+
+def _fresh_dir(root, tag):
+    """a directory whose path no earlier execution of this process has used.  The harness never deletes or re-creates
+    a file under a path the implementation has appended to and will append to again: external deletion is not an
+    operation of the property, and an implementation that keeps append handles open must not be judged on it."""
+    _FRESH[0] += 1
+    d = os.path.join(root, "%s%d" % (tag, _FRESH[0]))
+    os.makedirs(d)
+    return d
 
 
 def _set_ci(val):
@@ -254,13 +278,32 @@ def _normalize_worker(chunk, st: Stats):
 SHARED = ("trunc", "write", "seek_end", "truncate_to")
 
 
+# the device of the writer whose solo run is in progress.  A handle normally lives inside one append call; an
+# implementation may also keep it open across calls (handle cache).  Such a handle is then used by the next writer of
+# the same process as well: its raw events belong to the writer that is running, not to the one that opened it.
+_ACTIVE = [None]
+
+
 class _VRaw(io.RawIOBase):
     def __init__(self, dev, hid, path, append):
         super().__init__()
-        self._dev, self._hid, self._path, self._append = dev, hid, path, append
+        self._dev0, self._hid, self._path, self._append = dev, hid, path, append
         self._pos = len(dev.files[path]) if append else 0
         self.mode = "ab" if append else "rb+"
         self.name = path
+
+    @property
+    def _dev(self):
+        dev = _ACTIVE[0] or self._dev0
+        if self._hid not in dev.known:
+            # inherited open file description (shared offset, same O_APPEND flag); the file exists: it was opened
+            dev.known.add(self._hid)
+            dev.inherited += 1
+            if self._path not in dev.files:
+                dev.files[self._path] = bytearray()
+                dev._touch(self._path)
+            dev.events.append(("inherit", self._hid, self._path, (self._append, self._pos)))
+        return dev
 
     def readable(self):
         return False
@@ -328,12 +371,18 @@ def _apply_truncate(f, size):
 class _Dev:
     """records the raw events of ONE writer running alone on its own view of the file"""
 
+    _serial = [0]
+
     def __init__(self, wid, bufsize, initial, realdir=None):
         self.wid, self.bufsize = wid, bufsize
+        _Dev._serial[0] += 1
+        self.serial = _Dev._serial[0]          # handle ids stay unique when a handle outlives its device
         self.files = {p: bytearray(b) for p, b in initial.items()}
         self.events = []
         self.nh = 0
         self.opens = 0
+        self.known = set()
+        self.inherited = 0
         # existence (not content) of the virtual files is mirrored by empty placeholders in the real log directory so
         # that an implementation asking os.path.exists() gets the answer of its solo view
         self.realdir = realdir
@@ -364,8 +413,9 @@ class _Dev:
         if core[0] == "x" and exists:
             raise FileExistsError(errno.EEXIST, "File exists", path)
         self.opens += 1
-        hid = "%d.%d" % (self.wid, self.nh)
+        hid = "%d.%d.%d" % (self.serial, self.wid, self.nh)
         self.nh += 1
+        self.known.add(hid)
         append = core[0] == "a"
         if core[0] in "wx":
             self.files[path] = bytearray()
@@ -410,6 +460,9 @@ def _replay_steps(initial, steps_by_writer, order):
             f = files.setdefault(path, bytearray())
             if kind == "open":
                 hpos[hid], happ[hid] = 0, arg
+            elif kind == "inherit":
+                happ.setdefault(hid, arg[0])
+                hpos.setdefault(hid, arg[1])
             elif kind == "trunc":
                 del f[:]
             elif kind == "seek_set":
@@ -537,6 +590,7 @@ def check_append(case, st: Stats = None):
         for w, shapes in enumerate(writers):
             dev = _Dev(w, bufsize, initial, os.environ["CLEMATIS_LOG_DIR"])
             clog.open = dev.open
+            _ACTIVE[0] = dev
             api = clog.append_jsonl if (w % 2 == 0) else clog._append_jsonl_unbuffered
             try:
                 for i, shape in enumerate(shapes):
@@ -553,18 +607,22 @@ def check_append(case, st: Stats = None):
                     if Jo(rec) != keep:
                         res.append(("append:mutates-record", "record mutated by append"))
                     nw = sum(1 for ev in dev.events[n_ev:] if ev[0] == "write")
-                    if dev.opens == 0 or nw == 0:
+                    if nw == 0:
                         raise HarnessError("seam bypassed: append produced no raw write on the virtual device "
                                            "(clematis.io.log no longer writes through its module-level open)")
                     if nw > 1:
                         shapeinfo.add("multi-write-record")
+                    if dev.inherited:
+                        shapeinfo.add("handle-kept-open")
             finally:
+                _ACTIVE[0] = None
                 if saved_open is None:
                     clog.__dict__.pop("open", None)
                 else:
                     clog.open = saved_open
             for ev in dev.events:
-                if ev[0] in ("trunc", "truncate_to", "seek_set", "seek_end") or (ev[0] == "open" and not ev[3]):
+                if ev[0] in ("trunc", "truncate_to", "seek_set", "seek_end") or (ev[0] == "open" and not ev[3]) \
+                        or (ev[0] == "inherit" and not ev[3][0]):
                     shapeinfo.add("non-append")
             steps_by_writer.append(_steps(dev.events))
             if st is not None:
@@ -755,15 +813,27 @@ class _StagerPrep:
 
 
 def _stager_run(prep, limit, mode, logdir):
-    """one execution of the protocol + oracle.  Returns ([(sig, what)], outcome class).  CI must be 'true'."""
+    """one execution of the protocol + oracle.  Returns ([(sig, what)], outcome class).  CI must be 'true'.
+    mode 'files': the flush goes through the real writer into a fresh sub-directory of ``logdir``."""
+    if mode != "files":
+        return _stager_run_in(prep, limit, mode, logdir)
+    sub = _fresh_dir(logdir, "s")
+    old_dir = os.environ.get("CLEMATIS_LOG_DIR")
+    os.environ["CLEMATIS_LOG_DIR"] = sub
+    try:
+        return _stager_run_in(prep, limit, mode, sub)
+    finally:
+        if old_dir is None:
+            os.environ.pop("CLEMATIS_LOG_DIR", None)
+        else:
+            os.environ["CLEMATIS_LOG_DIR"] = old_dir
+        shutil.rmtree(sub, ignore_errors=True)
+
+
+def _stager_run_in(prep, limit, mode, logdir):
     cells, ests = prep.cells, prep.ests
     out = []
     if mode == "files":
-        for s in ST_STREAMS:
-            try:
-                os.unlink(os.path.join(logdir, s))
-            except FileNotFoundError:
-                pass
         from clematis.engine.orchestrator.logging import _append_unbuffered
 
         def flush(rec):
@@ -930,6 +1000,32 @@ RW_RECS = [
     {"s": "é\r\n" * 3000},
 ]
 RW_FILES = ("custom.jsonl", "t1.jsonl", "turn.jsonl")
+# how the caller hands the records over: the parameter is declared ``Iterable[dict]``, so a sequence, a re-iterable
+# container without indexing (dict view), and ONE-SHOT iterables (iterator, generator; for the compaction scenario a
+# generator that streams the very file being compacted, read lazily while rewrite_jsonl runs) are all legal inputs
+RW_VIA = ("list", "tuple", "view", "iter", "gen")
+RW_ONE_SHOT = ("iter", "gen")
+
+
+def _as_iterable(recs, via):
+    if via == "list":
+        return recs
+    if via == "tuple":
+        return tuple(recs)
+    if via == "view":
+        return {i: r for i, r in enumerate(recs)}.values()
+    if via == "iter":
+        return iter(recs)
+    if via == "gen":
+        return (r for r in recs)
+    raise HarnessError("container kind %r" % (via,))
+
+
+def _stream_jsonl(path):
+    """a compaction that does not load the log: records are parsed lazily, line by line, from the file being compacted"""
+    with open(path, "rb") as fh:
+        for ln in fh:
+            yield json.loads(ln.decode("utf-8"))
 
 
 class _KillOs:
@@ -988,21 +1084,22 @@ def _records_match(name, inputs, got):
 
 
 def check_rewrite(case, scratch=None):
-    """case: {kind:rewrite, file, recs:[indices into RW_RECS], pre: absent|stale, kill?: int}"""
+    """case: {kind:rewrite, file, recs:[indices into RW_RECS], pre: absent|stale, kill?: int, via?: container kind}"""
     name, idxs, pre = case["file"], case["recs"], case["pre"]
+    via = case.get("via", "list")
+    vtag = "" if via == "list" else (":one-shot-iterable" if via in RW_ONE_SHOT else ":" + via)
     recs = [copy.deepcopy(RW_RECS[i]) for i in idxs]
     own = None
     if scratch is None:
         own = scratch = tempfile.mkdtemp(prefix="c16w", dir="/dev/shm" if os.path.isdir("/dev/shm") else None)
-    d = os.path.join(scratch, "rw")
-    shutil.rmtree(d, ignore_errors=True)
-    os.makedirs(d)
+    d = _fresh_dir(scratch, "rw")
+    d2 = None
     old_dir, old_ci = os.environ.get("CLEMATIS_LOG_DIR"), os.environ.get("CI")
     os.environ["CLEMATIS_LOG_DIR"] = d
     _set_ci("true")
     path = os.path.join(d, name)
     res = []
-    desc = "rewrite_jsonl(%r, %s) pre=%s" % (name, Jo(recs)[:300], pre)
+    desc = "rewrite_jsonl(%r, %s%s) pre=%s" % (name, Jo(recs)[:300], "" if via == "list" else " handed over as %s" % via, pre)
     try:
         stale = b'{"stale": 1}\n{"stale": 2}\n'
         if pre == "stale":
@@ -1038,26 +1135,28 @@ def check_rewrite(case, scratch=None):
             return [], "killed-new"
         keep = Jo(recs)
         try:
-            clog.rewrite_jsonl(name, recs)
+            clog.rewrite_jsonl(name, _as_iterable(recs, via))
         except Exception as e:
-            return [("rewrite:raises", desc + " raised %r" % (e,))], "raises"
+            return [("rewrite:raises" + vtag, desc + " raised %r" % (e,))], "raises"
         if Jo(recs) != keep:
             res.append(("rewrite:mutates-input", desc))
         try:
             raw1, got = _read_jsonl(path)
         except Exception as e:
-            return [("rewrite:malformed-file", desc + ": %r" % (e,))], "malformed"
+            return [("rewrite:malformed-file" + vtag, desc + ": %r" % (e,))], "malformed"
         bad = _records_match(name, recs, got)
         if bad:
-            res.append(("rewrite:records-not-preserved", desc + ": " + bad))
+            res.append(("rewrite:records-not-preserved" + vtag, desc + ": " + bad))
             return res, "not-preserved"
         # canonical: rewriting what was read gives the same bytes
-        clog.rewrite_jsonl(name, got)
+        clog.rewrite_jsonl(name, _as_iterable(got, via))
         raw2 = open(path, "rb").read()
         if raw2 != raw1:
-            res.append(("rewrite:not-idempotent", desc + ": second rewrite of the parsed file changed the bytes"))
-        # compaction scenario: append -> read -> rewrite -> read
-        os.unlink(path)
+            res.append(("rewrite:not-idempotent" + vtag, desc + ": second rewrite of the parsed file changed the bytes"))
+        # compaction scenario: append -> read -> rewrite -> read (kind "gen": the old file is streamed lazily into the rewrite)
+        d2 = _fresh_dir(scratch, "rwc")
+        os.environ["CLEMATIS_LOG_DIR"] = d2
+        path = os.path.join(d2, name)
         for r in recs:
             clog.append_jsonl(name, copy.deepcopy(r))
         if recs:
@@ -1065,10 +1164,16 @@ def check_rewrite(case, scratch=None):
                 _, appended = _read_jsonl(path)
             except Exception as e:
                 return res + [("rewrite:appended-file-malformed", desc + ": %r" % (e,))], "malformed"
-            clog.rewrite_jsonl(name, appended)
-            _, compacted = _read_jsonl(path)
+            try:
+                clog.rewrite_jsonl(name, _stream_jsonl(path) if via == "gen" else _as_iterable(appended, via))
+            except Exception as e:
+                return res + [("rewrite:raises" + vtag, desc + ": compaction of the appended file raised %r" % (e,))], "raises"
+            try:
+                _, compacted = _read_jsonl(path)
+            except Exception as e:
+                return res + [("rewrite:malformed-file" + vtag, desc + ": after compaction %r" % (e,))], "malformed"
             if [J(x) for x in compacted] != [J(x) for x in appended]:
-                res.append(("rewrite:compaction-changes-records", desc + ": appended %s compacted %s" % (Jo(appended)[:200], Jo(compacted)[:200])))
+                res.append(("rewrite:compaction-changes-records" + vtag, desc + ": appended %s compacted %s" % (Jo(appended)[:200], Jo(compacted)[:200])))
         return res, "ok" if not res else "bad"
     finally:
         if old_dir is None:
@@ -1077,6 +1182,8 @@ def check_rewrite(case, scratch=None):
             os.environ["CLEMATIS_LOG_DIR"] = old_dir
         _set_ci(old_ci)
         shutil.rmtree(d, ignore_errors=True)
+        if d2:
+            shutil.rmtree(d2, ignore_errors=True)
         if own:
             shutil.rmtree(own, ignore_errors=True)
 
@@ -1110,11 +1217,16 @@ def _rewrite_worker(chunk, st: Stats, scratch_root, nkill):
     scratch = os.path.join(scratch_root, "rw-%d" % os.getpid())
     os.makedirs(scratch, exist_ok=True)
     for name, idxs, pre in chunk:
-        kills = [None] + (list(range(nkill + 2)) if len(idxs) <= 2 else [])
-        for kill in kills:
+        kills = [(None, "list")] + ([(k, "list") for k in range(nkill + 2)] if len(idxs) <= 2 else [])
+        # every other way of handing the records over (lists of <= 2 records)
+        kills += [(None, via) for via in RW_VIA[1:]] if len(idxs) <= 2 else []
+        for kill, via in kills:
             case = {"kind": "rewrite", "file": name, "recs": list(idxs), "pre": pre}
             if kill is not None:
                 case["kill"] = kill
+            if via != "list":
+                case["via"] = via
+                st.add("rewrite_container_cases")
             res, outcome = check_rewrite(case, scratch)
             st.add("states")
             st.add("transitions")
@@ -1122,7 +1234,7 @@ def _rewrite_worker(chunk, st: Stats, scratch_root, nkill):
             st.add("rewrite_cases")
             if idxs:
                 st.add("nontrivial")
-            st.distinct("outcomes", ("rewrite", outcome, pre))
+            st.distinct("outcomes", ("rewrite", outcome, pre, via in RW_ONE_SHOT))
             for sig, what in res:
                 _viol(st, sig, what, case)
     if chunk:
@@ -1481,17 +1593,31 @@ def _cap_flush_staged(pairs, limit, writer):
         iol.disable_staging()
 
 
-def _cap_run(name, ci, entry, path, hist, d):
-    """one producer history on one path to the file.  CLEMATIS_LOG_DIR must be ``d``.  Returns ([(sig, what)], outcome)."""
+_CAP_LAST = {"buffered": 0}
+
+
+def _cap_run(name, ci, entry, path, hist, root):
+    """one producer history on one path to the file, in a fresh sub-directory of ``root``.  Returns ([(sig, what)], outcome)."""
+    d = _fresh_dir(root, "c")
+    old_dir = os.environ.get("CLEMATIS_LOG_DIR")
+    os.environ["CLEMATIS_LOG_DIR"] = d
+    _CAP_LAST["buffered"] = 0
+    try:
+        return _cap_run_in(name, ci, entry, path, hist, d)
+    finally:
+        if old_dir is None:
+            os.environ.pop("CLEMATIS_LOG_DIR", None)
+        else:
+            os.environ["CLEMATIS_LOG_DIR"] = old_dir
+        shutil.rmtree(d, ignore_errors=True)
+
+
+def _cap_run_in(name, ci, entry, path, hist, d):
     import clematis.engine.util.logmux as lmux
     from clematis.engine.orchestrator import logging as ologging
     cls = _stream_class(name)
     ci_on = isinstance(ci, str) and ci.lower() == "true"
     fpath = os.path.join(d, name)
-    try:
-        os.unlink(fpath)
-    except FileNotFoundError:
-        pass
     api = clog.append_jsonl if entry == "io" else ologging.append_jsonl
     ev = _cap_base(name)
     expected, later = [], []
@@ -1525,14 +1651,14 @@ def _cap_run(name, ci, entry, path, hist, d):
                 with lmux.use_mux(mux):
                     produce()
                 pairs = mux.dump()
-                buffered = len(pairs)
+                buffered = _CAP_LAST["buffered"] = len(pairs)
                 lmux.flush(pairs)
             else:
                 mux, token = ologging._begin_log_capture()
                 try:
                     produce()
                     pairs = mux.dump()
-                    buffered = len(pairs)
+                    buffered = _CAP_LAST["buffered"] = len(pairs)
                 finally:
                     ologging._end_log_capture(token)
                 _cap_flush_staged(pairs, BIG if path == "stager" else 1, ologging._append_unbuffered)
@@ -1592,8 +1718,8 @@ def _capture_worker(chunk, st: Stats, scratch, cis):
                             st.add("states")
                             st.add("validated")
                             st.add("capture_cases")
-                            if outcome == "ok-buffered":
-                                st.add("capture_buffered")
+                            if _CAP_LAST["buffered"]:
+                                st.add("capture_buffered")      # anti-vacuity: the LogMux did defer the write (whatever the verdict)
                             st.add("transitions", napp)
                             if path != "direct" and updated_after:
                                 st.add("nontrivial")
@@ -1733,6 +1859,133 @@ class _ConcScenario:
         return [], "ok:" + ",".join(str(w) for w in winners)
 
 
+class _AppendConcScenario:
+    """n appender threads of ONE process: writer i appends its records (1-2, in order) to files[i] through the entry
+    point apis[i].  Unlike leg (1) the writers share whatever state the appender keeps in the process (module-level
+    caches, handles, buffers).  A thread switch can happen before every source line of clematis/io/log.py."""
+
+    APIS = {"io": lambda: clog.append_jsonl, "unbuf": lambda: clog._append_jsonl_unbuffered}
+
+    def __init__(self, case, d):
+        self.files = list(case["files"])
+        self.apis = list(case["apis"])
+        self.counts = list(case["counts"])
+        self.root = d
+        self.n = len(self.files)
+        self.traced = [clog.__file__]
+        self.recs = [[_mk_record("u", w, i) for i in range(self.counts[w])] for w in range(self.n)]
+
+    def make(self, ex):
+        global _REAL_LOCKS
+        import threading
+        d = _fresh_dir(self.root, "a")
+        os.environ["CLEMATIS_LOG_DIR"] = d
+        if _REAL_LOCKS is None:
+            _REAL_LOCKS = (type(threading.Lock()), type(threading.RLock()))
+        swapped = []
+        if ex is not None:
+            for k, v in list(vars(clog).items()):
+                if isinstance(v, _REAL_LOCKS):
+                    swapped.append((clog, k, v))
+                    setattr(clog, k, ex.lock("%s.%s" % (clog.__name__, k)))
+        ctx = {"errors": {}, "swapped": swapped, "dir": d}
+
+        def writer(w):
+            api = self.APIS[self.apis[w]]()
+
+            def body():
+                try:
+                    for rec in self.recs[w]:
+                        api(self.files[w], copy.deepcopy(rec))
+                except Exception as e:  # the operation's own failure is an outcome, not a harness problem
+                    ctx["errors"][w] = e
+            return body
+
+        return [writer(w) for w in range(self.n)], ctx
+
+    def judge(self, ex, ctx):
+        for mod, k, v in ctx["swapped"]:
+            setattr(mod, k, v)
+        d = ctx["dir"]
+        desc = "threads of one process appending %r records to %r through %r" % (self.counts, self.files, self.apis)
+        try:
+            if ex is not None and ex.deadlock:
+                return [("append:threads:deadlock", desc + ": no appender can continue")], "deadlock"
+            res = []
+            for w, e in sorted(ctx["errors"].items()):
+                res.append(("append:threads:raises:%s" % type(e).__name__, desc + ": the append of writer %d raised %r" % (w, e)))
+            order = []
+            for name in sorted(set(self.files)):
+                want = {(w, i): self.recs[w][i] for w in range(self.n) if self.files[w] == name for i in range(self.counts[w])}
+                try:
+                    _, got = _read_jsonl(os.path.join(d, name))
+                except Exception as e:
+                    res.append(("append:threads:malformed-or-missing-file", desc + ": %s: %r" % (name, e)))
+                    continue
+                seen = []
+                for g in got:
+                    t = g.get("tail") if isinstance(g, dict) else None
+                    k = (t[0], t[1]) if isinstance(t, list) and len(t) == 2 else None
+                    if k not in want:
+                        # another stream's record, or no record at all
+                        foreign = isinstance(t, list) and any(t == [w, i] for w in range(self.n) for i in range(self.counts[w]))
+                        res.append(("append:threads:%s" % ("record-in-wrong-stream" if foreign else "garbled-line"),
+                                    desc + ": %s holds %s" % (name, Jo(g)[:120])))
+                        break
+                    if norm_clauses(name, want[k], g, True):
+                        res.append(("append:threads:garbled-line", desc + ": %s holds %s for record %r" % (name, Jo(g)[:120], k)))
+                        break
+                    seen.append(k)
+                else:
+                    if len(set(seen)) != len(seen):
+                        res.append(("append:threads:duplicate-record", desc + ": %s holds records %r" % (name, seen)))
+                    elif set(seen) != set(want):
+                        res.append(("append:threads:lost-record", desc + ": %s holds records %r, appended %r" % (name, seen, sorted(want))))
+                    else:
+                        last = {}
+                        for w, i in seen:
+                            if last.get(w, -1) > i:
+                                res.append(("append:threads:writer-order", desc + ": %s holds records %r" % (name, seen)))
+                                break
+                            last[w] = i
+                    order.append(tuple(w for w, _ in seen))
+            if res:
+                return res, "bad:" + res[0][0].split(":")[2]
+            return [], "ok:" + repr(order)
+        finally:
+            shutil.rmtree(d, ignore_errors=True)
+
+
+def _make_scenario(case, d):
+    return _AppendConcScenario(case, d) if case["kind"] == "append-conc" else _ConcScenario(case, d)
+
+
+def append_conc_cases(thorough):
+    out = []
+    two = ("t1.jsonl", "zz_custom.jsonl")
+    for files in (["t1.jsonl"] * 2, ["zz_custom.jsonl"] * 2, list(two)):
+        for apis in (["io", "io"], ["io", "unbuf"]):
+            out.append({"kind": "append-conc", "files": files, "apis": apis, "counts": [2, 2], "bound": 1})
+    if thorough:
+        for files in (["t1.jsonl"] * 2, list(two)):
+            out.append({"kind": "append-conc", "files": files, "apis": ["unbuf", "unbuf"], "counts": [2, 2], "bound": 2})
+            out.append({"kind": "append-conc", "files": files, "apis": ["io", "io"], "counts": [2, 1], "bound": 2})
+        out.append({"kind": "append-conc", "files": [two[0], two[1], two[0]], "apis": ["io", "unbuf", "unbuf"], "counts": [2, 2, 1], "bound": 1})
+        out.append({"kind": "append-conc", "files": [two[0], two[1], "scheduler.jsonl"], "apis": ["unbuf", "io", "io"], "counts": [1, 2, 2], "bound": 1})
+    return out
+
+
+def _conc_warmup(sc):
+    """appender threads: one uncontrolled sequential run first, so that whatever the appender keeps between calls is in
+    the same condition ("left behind by an earlier run on another directory") at the start of every controlled
+    execution — in the exploration and in a replay"""
+    if isinstance(sc, _AppendConcScenario):
+        bodies, ctx = sc.make(None)
+        for b in bodies:
+            b()
+        sc.judge(None, ctx)
+
+
 def _conc_explore(sc, bound, on_exec):
     """mc.sched.explore with a shorter watchdog (same DFS over schedule prefixes; every schedule with <= bound
     preemptions is executed exactly once; the default schedule is executed twice to assert reproducibility)"""
@@ -1741,6 +1994,7 @@ def _conc_explore(sc, bound, on_exec):
     n = 0
     by_pre = {}
     max_points = 0
+    _conc_warmup(sc)
     while stack:
         prefix = stack.pop()
         ex = sched.Execution(sc.n, prefix, sc.traced, timeout=CONC_TIMEOUT)
@@ -1795,18 +2049,19 @@ def _conc_worker(chunk, st: Stats, scratch):
     _set_ci("true")
     try:
         for case in chunk:
-            sc = _ConcScenario(case, d)
-            st.add("conc_programs")
+            sc = _make_scenario(case, d)
+            tag = "conc" if case["kind"] == "rewrite-conc" else "appconc"
+            st.add(tag + "_programs")
 
-            def on_exec(ex, res, outcome, case=case):
+            def on_exec(ex, res, outcome, case=case, tag=tag):
                 st.add("states")
-                st.add("transitions", len(case["files"]))
+                st.add("transitions", sum(case["counts"]) if "counts" in case else len(case["files"]))
                 st.add("validated")
-                st.add("conc_schedules")
-                st.add("conc_sched_points", ex.points)
+                st.add(tag + "_schedules")
+                st.add(tag + "_sched_points", ex.points)
                 if ex.preemptions() > 0:
                     st.add("nontrivial")
-                st.distinct("outcomes", ("rewrite-conc", outcome, case["pre"], len(set(case["files"]))))
+                st.distinct("outcomes", (case["kind"], outcome, case.get("pre"), len(set(case["files"]))))
                 for sig, what in res:
                     c = dict(case)
                     c["choices"] = ex.choices()
@@ -1814,9 +2069,9 @@ def _conc_worker(chunk, st: Stats, scratch):
 
             info = _conc_explore(sc, case["bound"], on_exec)
             for p, k in info["by_preemptions"].items():
-                st.add("conc_schedules_with_%d_preemptions" % p, k)
-            st.notes["conc_max_points_per_execution"] = max(st.notes.get("conc_max_points_per_execution", 0), info["max_points"])
-            st.notes["conc_max_schedules_per_program"] = max(st.notes.get("conc_max_schedules_per_program", 0), info["executions"])
+                st.add("%s_schedules_with_%d_preemptions" % (tag, p), k)
+            st.notes[tag + "_max_points_per_execution"] = max(st.notes.get(tag + "_max_points_per_execution", 0), info["max_points"])
+            st.notes[tag + "_max_schedules_per_program"] = max(st.notes.get(tag + "_max_schedules_per_program", 0), info["executions"])
         if chunk:
             st.sample({k: v for k, v in chunk[0].items()})
     finally:
@@ -1835,7 +2090,8 @@ def check_conc(case):
     os.environ["CLEMATIS_LOG_DIR"] = own
     _set_ci("true")
     try:
-        sc = _ConcScenario(case, own)
+        sc = _make_scenario(case, own)
+        _conc_warmup(sc)
         ex, ctx = sched.run_schedule(sc.make, sc.n, sc.traced, case.get("choices") or [])
         return sc.judge(ex, ctx)[0]
     finally:
@@ -1845,6 +2101,233 @@ def check_conc(case):
             os.environ["CLEMATIS_LOG_DIR"] = old_dir
         _set_ci(old_ci)
         shutil.rmtree(own, ignore_errors=True)
+
+
+
+# =====================================================================================================
+# (8) life cycle of a stream inside ONE process: appends interleaved with the maintenance operations on the same files
+# =====================================================================================================
+LC_OTHER = "zz_other.jsonl"
+LC_OPS = ("A", "U", "B", "C", "R")
+# A  append one record to stream X through clematis.io.log.append_jsonl
+# U  append one record to stream X through _append_jsonl_unbuffered (the commit-phase writer of the parallel driver)
+# B  append one record to a second stream of the same directory
+# C  compaction of X: read the file, rewrite_jsonl(X, records)        (not enabled while X has no live file)
+# R  rotation of the directory: rotate_logs.main(--pattern *.jsonl --max-bytes M --backups N)
+LC_STREAMS = ("t1.jsonl", "zz_custom.jsonl")
+LC_BACKUPS = (1, 2)
+LC_MAXBYTES = (1, 150)      # 1: every live file rotates; 150: a live file rotates from its second record on
+
+
+def _lc_record(k, name):
+    return {"id": k, "turn": k + 1, "stream": name, "agent": "Ä✓", "ms": 0.5 + k, "pad": "p" * (4 + k % 3)}
+
+
+def _lc_assert_sizes():
+    """the larger threshold separates one record from two, in the appender's and in the canonical (compacted) format"""
+    for name in LC_STREAMS + (LC_OTHER,):
+        one = [len((json.dumps(_lc_record(k, name), ensure_ascii=False) + "\n").encode("utf-8")) for k in range(12)]
+        two = [len((json.dumps(_expected_t1(_lc_record(k, name)), ensure_ascii=False, sort_keys=True, separators=(",", ":")) + "\n").encode("utf-8"))
+               for k in range(12)]
+        if not (max(one) < LC_MAXBYTES[1] <= 2 * min(two)):
+            raise HarnessError("life-cycle leg: threshold %d does not separate one record (%d B) from two (%d B)" % (LC_MAXBYTES[1], max(one), 2 * min(two)))
+
+
+class _LcModel:
+    """reference model taken from the statement: a stream is a live record list plus generations .1 .. .N (newest
+    first); an append adds one record at the end of the live list (creating the file), compaction keeps the list, a
+    rotation of a live file of size >= M makes it generation .1, moves every generation one slot up and drops what was
+    generation .N; everything else stays as it is.  (Histories start from an empty directory with one fixed N, so the
+    generations are always contiguous and none lies beyond N.)"""
+
+    def __init__(self, n):
+        self.n = n
+        self.live = {}      # stream -> [record ids] (absent = no live file)
+        self.gens = {}      # stream -> [[record ids] of .1, of .2, ...]
+        self.maint = {}     # stream -> last maintenance operation that replaced / renamed its live file
+
+    def append(self, name, k):
+        self.live.setdefault(name, []).append(k)
+
+    def rotate(self, name):
+        g = self.gens.setdefault(name, [])
+        g.insert(0, self.live.pop(name))
+        del g[self.n:]
+
+    def files(self):
+        out = {}
+        for name, ids in self.live.items():
+            out[name] = (name, list(ids))
+        for name, g in self.gens.items():
+            for k, ids in enumerate(g):
+                out["%s.%d" % (name, k + 1)] = (name, list(ids))
+        return out
+
+
+def _lc_verify(d, model, records, memo):
+    """compare the directory with the model; returns (failure class, stream, detail) or None"""
+    want = model.files()
+    have = set(os.listdir(d))
+    streams = set(model.live) | set(model.gens)
+    for fname in sorted(want):
+        stream, ids = want[fname]
+        if fname not in have:
+            return "lost-record" if ids else "missing-file", stream, "%s does not exist, expected records %r" % (fname, ids)
+        try:
+            raw = open(os.path.join(d, fname), "rb").read()
+        except OSError as e:
+            return "missing-file", stream, "%s: %r" % (fname, e)
+        if raw and not raw.endswith(b"\n"):
+            return "garbled-line", stream, "%s does not end with LF" % fname
+        got = []
+        for ln in raw.split(b"\n")[:-1]:
+            key = (stream, ln)
+            if key not in memo:
+                rid = None
+                try:
+                    obj = json.loads(ln.decode("utf-8"))
+                    if isinstance(obj, dict) and obj.get("id") in records and _records_match(stream, [records[obj["id"]]], [obj]) is None:
+                        rid = obj["id"]
+                except Exception:
+                    rid = None
+                memo[key] = rid
+            if memo[key] is None:
+                return "garbled-line", stream, "%s holds the line %r which is no appended record" % (fname, ln[:80])
+            got.append(memo[key])
+        if got != ids:
+            if len(set(got)) != len(got):
+                cls = "duplicate-record"
+            elif set(ids) - set(got):
+                cls = "lost-record"
+            elif set(got) - set(ids):
+                cls = "foreign-record"
+            else:
+                cls = "order"
+            return cls, stream, "%s holds records %r, expected %r" % (fname, got, ids)
+    # a file in a slot of the model (live name, generation .1 .. .N) that should not exist: tolerated while it holds
+    # no bytes (no record is claimed to be there), anything else is a record in the wrong place
+    for stream in sorted(streams):
+        for fname in [stream] + ["%s.%d" % (stream, k) for k in range(1, model.n + 1)]:
+            if fname in have and fname not in want:
+                size = os.path.getsize(os.path.join(d, fname))
+                if size:
+                    return "unexpected-file", stream, "%s exists (%d bytes) although no record / generation belongs there" % (fname, size)
+    return None
+
+
+def _lc_run(d, x, n, m, hist, st=None):
+    """one history on a fresh directory; oracle after every step.  Returns ([(sig, what)], outcome, executed prefix)."""
+    old_dir, old_ci = os.environ.get("CLEMATIS_LOG_DIR"), os.environ.get("CI")
+    os.environ["CLEMATIS_LOG_DIR"] = d
+    _set_ci("true")
+    model = _LcModel(n)
+    records, memo = {}, {}
+    done = []
+    rotated = compacted = 0
+    try:
+        for step, op in enumerate(hist):
+            if op == "C" and x not in model.live:
+                if st is not None:
+                    return None, "not-enabled", done        # nothing to compact: the history without this step is enumerated anyway
+                continue
+            done.append(op)
+            kind = {"A": "append", "U": "append", "B": "append", "C": "rewrite", "R": "rotate"}[op]
+            target = LC_OTHER if op == "B" else x
+            ctxd = "stream %s, backups %d, max-bytes %d, history %r" % (x, n, m, done)
+            try:
+                if kind == "append":
+                    k = len(records)
+                    records[k] = _lc_record(k, target)
+                    (clog._append_jsonl_unbuffered if op == "U" else clog.append_jsonl)(target, copy.deepcopy(records[k]))
+                    model.append(target, k)
+                elif op == "C":
+                    _, cur = _read_jsonl(os.path.join(d, x))
+                    clog.rewrite_jsonl(x, cur)
+                    model.maint[x] = "rewrite"
+                    compacted += 1
+                else:
+                    due = [s for s in sorted(model.live) if os.path.getsize(os.path.join(d, s)) >= m]
+                    rc = rl.main(["--dir", d, "--pattern", "*.jsonl", "--max-bytes", str(m), "--backups", str(n)])
+                    if rc != 0:
+                        return [("lifecycle:rotate-exit-code", ctxd + ": main returned %r" % (rc,))], "bad", done
+                    for s_ in due:
+                        model.rotate(s_)
+                        model.maint[s_] = "rotate"
+                        rotated += 1
+            except HarnessError:
+                raise
+            except Exception as e:
+                after = model.maint.get(target, "none")
+                return [("lifecycle:raises:%s-after-%s" % (kind, after), ctxd + ": %s raised %r" % (kind, e))], "raises", done
+            if st is not None:
+                st.add("transitions")
+                st.add("validated")
+                st.add("lifecycle_steps")
+            bad = _lc_verify(d, model, records, memo)
+            if bad:
+                cls, stream, detail = bad
+                if kind == "append":
+                    sig = "lifecycle:%s:append-after-%s" % (cls, model.maint.get(stream, "none"))
+                else:
+                    sig = "lifecycle:%s:%s" % (cls, kind)
+                return [(sig, ctxd + ": after the last step (%s) %s" % (kind, detail))], "bad", done
+        return [], "ok:%d:%d" % (min(rotated, 3), min(compacted, 2)), done
+    finally:
+        if old_dir is None:
+            os.environ.pop("CLEMATIS_LOG_DIR", None)
+        else:
+            os.environ["CLEMATIS_LOG_DIR"] = old_dir
+        _set_ci(old_ci)
+
+
+def check_lifecycle(case):
+    """case: {kind:lifecycle, stream, backups, max_bytes, hist}"""
+    own = tempfile.mkdtemp(prefix="c16l", dir="/dev/shm" if os.path.isdir("/dev/shm") else None)
+    try:
+        return _lc_run(own, case["stream"], int(case["backups"]), int(case["max_bytes"]), list(case["hist"]))[0]
+    finally:
+        shutil.rmtree(own, ignore_errors=True)
+
+
+def _lifecycle_worker(chunk, st: Stats, scratch, length):
+    """chunk: list of (stream, backups, max-bytes, first two operations); every history of ``length`` operations with
+    that prefix is executed, each on a directory of its own (a path is never used by two histories)"""
+    root = os.path.join(scratch, "lc-%d" % os.getpid())
+    os.makedirs(root, exist_ok=True)
+    serial = 0
+    try:
+        for x, n, m, prefix in chunk:
+            for rest in itertools.product(LC_OPS, repeat=length - len(prefix)):
+                hist = tuple(prefix) + rest
+                serial += 1
+                d = os.path.join(root, "h%d" % serial)
+                os.mkdir(d)
+                res, outcome, done = _lc_run(d, x, n, m, hist, st)
+                shutil.rmtree(d, ignore_errors=True)
+                if res is None:
+                    st.add("lifecycle_histories_with_a_step_that_is_not_enabled")
+                    continue
+                st.add("states")
+                st.add("lifecycle_histories")
+                # non-trivial: an append to a stream whose live file was replaced / renamed earlier in the history
+                seen_maint = False
+                for op in hist:
+                    if op in ("C", "R"):
+                        seen_maint = True
+                    elif seen_maint and op in ("A", "U"):
+                        st.add("nontrivial")
+                        break
+                st.distinct("outcomes", ("lifecycle", outcome, n, m))
+                if res:
+                    # the executed prefix up to the failing step is the witness
+                    case = {"kind": "lifecycle", "stream": x, "backups": n, "max_bytes": m, "hist": list(done)}
+                    for sig, what in res:
+                        _viol(st, sig, what, case)
+        if chunk:
+            x, n, m, prefix = chunk[0]
+            st.sample({"kind": "lifecycle", "stream": x, "backups": n, "max_bytes": m, "hist": list(prefix) + ["A", "R", "A"][:max(0, length - len(prefix))]})
+    finally:
+        shutil.rmtree(root, ignore_errors=True)
 
 
 # =====================================================================================================
@@ -1876,7 +2359,13 @@ def run(run: Run) -> None:
     # (1) appender
     acfg = append_configs(th)
     run.notes["append_configs"] = len(acfg)
-    run.pmap(_append_worker, acfg)
+    deferred = []
+    try:
+        run.pmap(_append_worker, acfg)
+    except HarnessError as e:
+        # the virtual device could not observe this implementation's appends.  The other legs judge the real files;
+        # what they find is reported first, the machinery problem is raised afterwards unless a new violation explains it
+        deferred.append(str(e))
     # (3) stager
     nmax = 5 if th else 4
     nfiles = 3 if th else 2
@@ -1915,6 +2404,26 @@ def run(run: Run) -> None:
     ccases = conc_cases(th)
     run.notes["conc_programs"] = len(ccases)
     run.pmap(_conc_worker, ccases, extra=(run.scratch,), chunks=len(ccases), procs=NCPU)
+    # (1b) appenders as threads of one process (shared in-process state of the appender)
+    acc = append_conc_cases(th)
+    run.notes["appconc_programs"] = len(acc)
+    try:
+        run.pmap(_conc_worker, acc, extra=(run.scratch,), chunks=len(acc), procs=NCPU)
+    except HarnessError as e:
+        deferred.append(str(e))
+    # (8) life cycle of a stream in one process
+    _lc_assert_sizes()
+    lclen = 6 if th else 4
+    run.notes["lifecycle_history_length"] = lclen
+    lcitems = [(x, n, m, pre) for x in LC_STREAMS for n in LC_BACKUPS for m in LC_MAXBYTES for pre in itertools.product(LC_OPS, repeat=2)]
+    run.pmap(_lifecycle_worker, lcitems, extra=(run.scratch, lclen), chunks=len(lcitems), procs=NCPU)
+    if deferred:
+        from mc.runner import load_known
+        known = {e.get("signature") for e in load_known() if e.get("property") == run.prop and e.get("status") == "known"}
+        if not (set(run.viol) - known):
+            raise HarnessError(deferred[0])
+        run.notes["append_leg_not_observable"] = deferred[0]
+        print("note: append leg (virtual device) could not observe this implementation: %s" % deferred[0])
 
     run.rule = (
         "append: every writer configuration (2 writers x 1-2 records, 3 writers x 1%s records; shapes unicode / 9 KiB / 70 KiB%s; "
@@ -1924,7 +2433,9 @@ def run(run: Run) -> None:
         "stager: every arrival sequence of 1..%d records over 12 cells (2 turns x 3 streams x 2 slices) x every limit class "
         "(1, prefix sums of the estimates -1/0/+1, 32 MiB), sequences of <=%d records additionally through the real file writer, "
         "non-trivial = >=2 records and a finite limit; "
-        "rewrite: every record list of length 0..%d over 9 records x 3 streams x file absent/stale, lists <=2 also with a kill before each os call; "
+        "rewrite: every record list of length 0..%d over 9 records x 3 streams x file absent/stale, lists <=2 also with a kill before each os call "
+        "and handed over as every container kind of Iterable[dict] (list, tuple, dict view, iterator, generator; the generator of the compaction "
+        "scenario streams the file being compacted lazily); "
         "rotate: every history of depth <=%d over {append 3, append 10, rotate(max-bytes 8|16, backups 1|2|3)} from 48 initial states "
         "(every subset of .1-.4 x live absent/6 B/20 B), every rotate also killed before each of its os-level calls; non-trivial = directory changed; "
         "capture: every producer history of 1..%d steps over {append the producer's one re-used dict, rebind keys, add a key, delete/restore a key, "
@@ -1934,11 +2445,19 @@ def run(run: Run) -> None:
         "non-trivial = buffered path and the dict updated after an append; "
         "rewrite-conc: %d programs of 2%s same-process threads calling rewrite_jsonl (same target with short/long, long/short, equal-length "
         "record lists; two targets in one directory; file absent/stale%s) x EVERY schedule with <= 1%s preemptions at line granularity "
-        "inside clematis/io/atomic.py: no call fails, each target ends as exactly one writer's complete record list; non-trivial = >=1 preemption"
+        "inside clematis/io/atomic.py: no call fails, each target ends as exactly one writer's complete record list; non-trivial = >=1 preemption; "
+        "append-threads: %d programs of 2%s appender threads of one process (1-2 records each; same stream / different streams; append_jsonl / "
+        "_append_jsonl_unbuffered) on real files x EVERY schedule with <= 1%s preemptions at line granularity inside clematis/io/log.py: no call "
+        "fails, every stream holds exactly its own records as complete lines, per-writer order kept; "
+        "lifecycle: every history of %d operations of ONE process over {append to stream X via append_jsonl, via _append_jsonl_unbuffered, append "
+        "to a second stream, compaction of X (read + rewrite_jsonl), rotate_logs.main over the directory} x X in t1.jsonl/zz_custom.jsonl x backups "
+        "1/2 x max-bytes 1/150 (rotate always / from the second record on), each history on a directory of its own, the directory compared with "
+        "the reference model (live record list + generations) after EVERY step; non-trivial = an append to X after its file was replaced or renamed"
         % ("-2" if th else "", " / 5 KiB" if th else "", "4096/8192/131072" if th else "4096/8192", nmax, nfiles, rmax, depth,
            cmax, "/".join(repr(c) for c in cis), len(ccases), "-3" if th else "",
            "; the t1.jsonl two-writer programs also with a reader thread whose one whole-file read is placed by the schedule" if th else "",
-           " (<= 2 for the two-writer programs on custom.jsonl and one two-target program)" if th else ""))
+           " (<= 2 for the two-writer programs on custom.jsonl and one two-target program)" if th else "",
+           len(acc), "-3" if th else "", " (<= 2 for four two-thread programs)" if th else "", lclen))
     run.assume("a raw write() to a regular file is not short and an O_APPEND write(2) is atomic w.r.t. other appenders (POSIX local fs); "
                "open(path,'ab') maps to O_APPEND — the virtual device takes the semantics from the mode string")
     run.assume("append-only writers cannot observe each other, so each writer's raw-event sequence is obtained from a solo run and all "
@@ -1952,6 +2471,15 @@ def run(run: Run) -> None:
     run.assume("rewrite-conc: writers are threads of one process, a thread switch can happen before any source line of "
                "clematis/io/atomic.py (library calls made from one line are atomic w.r.t. the schedule); schedules with more "
                "preemptions than the bound and concurrent writer PROCESSES are not explored")
+    run.assume("append: an implementation may keep a handle open across calls; its raw events are attributed to the writer that is running "
+               "(shared open file description, one process); whether such a handle still names the stream after compaction / rotation is the "
+               "lifecycle leg's question")
+    run.assume("append-threads: a thread switch can happen before any source line of clematis/io/log.py (calls made from one line, including "
+               "the write itself, are atomic w.r.t. the schedule); one uncontrolled sequential run precedes the exploration of each program")
+    run.assume("lifecycle: maintenance runs between (not during) the appends of the same process; compaction and rotation are called in-process "
+               "through their public entry points; histories start from an empty directory and keep one backup count, so generations are "
+               "contiguous; an EMPTY file left in a slot that should be vacant is tolerated; externally deleted files / directories are not "
+               "part of the alphabet (the statement names compaction and rotation only)")
     run.assume("rotation threshold (size >= max-bytes rotates) taken from the script's documentation; generations beyond the requested N are not constrained")
 
 
@@ -1977,6 +2505,8 @@ def replay(case):
         return check_rotate(case)
     if k == "capture":
         return check_capture(case)
-    if k == "rewrite-conc":
+    if k in ("rewrite-conc", "append-conc"):
         return check_conc(case)
+    if k == "lifecycle":
+        return check_lifecycle(case)
     raise HarnessError("unknown case kind %r" % (k,))
